@@ -314,7 +314,6 @@ func doF12() {
 }
 
 func genPieces(rnd *hlib.Rand, n int) {
-	doF12()
 	for i := 0; i < n; i++ {
 		cur, pot, all := randState(rnd)
 		curS, potS := asgShuffled(rnd, cur), asgShuffled(rnd, pot)
